@@ -83,14 +83,75 @@ var _ rpc.Resources
 // Counters never go negative (data-structure invariant, assumed on entry of the accounting functions).
 //@ define predCountsOK() bool = forall x *Subscription :: x.direct >= 0 && x.indirect >= 0 && x.indirectsent >= 0
 
-// The collector is not verified (two-pass recursive closure algorithm over an arbitrary graph).
-// Trusted: it never changes a direct count, and does nothing when the subscription is still
-// directly subscribed.
+// The collector (two passes over the reference graph below an unsubscribed resource). The
+// graph-level result (exactly the unreachable resources are disposed) is not under contract; the
+// visit rules of both passes, the exit conditions and the final sweep are.
+// tryDelete: a directly subscribed resource is left alone. Only resources the second pass marked
+// for deletion are disposed and removed from the subscription table, only those it marked as
+// unsent are reset to unsent; the second pass runs only if the simulated removal leaves the root
+// without parents, or sent without sent parents.
 //@ func (*wsConn).tryDelete
-//@   trusted
-//@   ensures forall x *Subscription :: x.direct == old(x.direct)
-//@   assigns Subscription.state, Subscription.indirectsent, Subscription.indirect, Subscription.readyCallbacks,
-//@       Subscription.eventQueue, Subscription.throttle, Subscription.resourceSub, Subscription.refs, elems(c.subs), pkgstate(rescache), cachecontainers()
+//@   requires predConnOK(c) && s != nil && s.c == c
+//@   assumes predSubsOK(c) && predRefsOK() && (forall x *Subscription :: x.resourceSub != nil ==> x.resourceSub.e != nil && x.resourceSub.e.cache != nil) &&
+//@       (forall x *Subscription :: x.state == stateDisposed ==> x.resourceSub == nil)
+//@   ensures[C02,C08] old(s.direct) > 0 ==> callcount("traverse") == old(callcount("traverse")) && callcount("Dispose") == old(callcount("Dispose")) &&
+//@       callcount("Unsend") == old(callcount("Unsend")) && (forall x *Subscription :: x.state == old(x.state) && x.indirectsent == old(x.indirectsent))
+//@   assert[C02] s.traverse#1: arg0 == gcStateRoot && has(refs, s.rid) && refs[s.rid] == rr && rr.sub == s && rr.indirect == s.indirect && rr.indirectsent == s.indirectsent &&
+//@       rr.state == gcStateNone && sentDiff == ite(s.state == stateSent, 1, 0) && sent == (s.state == stateSent) && card(refs) == 1
+//@   assert[C02] s.traverse#2: arg0 == gcStateDelete && !(rr.indirect > 0 && !(sent && rr.indirectsent == 0))
+//@   assert[C02] ref.sub.Dispose#1: ref.state == gcStateDelete
+//@   assert[C02] ref.sub.Unsend#1: ref.state == gcStateUnsend
+//@   safety[C15]
+//@   loop 1 let R = refs
+//@   loop 1 assume forall k string :: has(R, k) ==> R[k] != nil && R[k].sub != nil && R[k].sub.c == c
+//@   loop 1 assume predConnOK(c) && predRefsOK() && (forall x *Subscription :: x.resourceSub != nil ==> x.resourceSub.e != nil && x.resourceSub.e.cache != nil) &&
+//@       (forall x *Subscription :: x.state == stateDisposed ==> x.resourceSub == nil)
+
+// First pass, visit rule: the root is passed through; a resource seen before loses one parent
+// (and one sent parent if the root was sent) and is not descended into again; a resource seen
+// for the first time is recorded with its counts less that one parent.
+//@ closure (*wsConn).tryDelete#1
+//@   requires refs != nil
+//@   assumes forall k string :: has(refs, k) ==> refs[k] != nil
+//@   ensures[C02] state == gcStateRoot ==> result == gcStateNone && (forall k string :: has(refs, k) == old(has(refs, k)) && refs[k] == old(refs[k])) &&
+//@       (forall r *subRef :: r.indirect == old(r.indirect) && r.indirectsent == old(r.indirectsent))
+//@   ensures[C02] state != gcStateRoot && old(has(refs, s.rid)) ==> result == gcStateStop && refs[s.rid] == old(refs[s.rid]) &&
+//@       refs[s.rid].indirect == old(refs[s.rid].indirect) - 1 && refs[s.rid].indirectsent == old(refs[s.rid].indirectsent) - sentDiff
+//@   ensures[C02] state != gcStateRoot && !old(has(refs, s.rid)) ==> result == gcStateNone && has(refs, s.rid) && fresh(refs[s.rid]) && refs[s.rid].sub == s &&
+//@       refs[s.rid].indirect == s.indirect - 1 && refs[s.rid].indirectsent == s.indirectsent - sentDiff && refs[s.rid].state == gcStateNone
+//@   ensures[C02] forall k string :: k != s.rid ==> has(refs, k) == old(has(refs, k)) && refs[k] == old(refs[k])
+//@   assigns elems(refs), subRef.indirect, subRef.indirectsent, alloc()
+//@   safety[C15]
+
+// Second pass, visit rule: a resource already kept or unsent stops the descent; one that still
+// has parents, or is reached from a kept one, is kept - or marked unsent when the root was sent
+// and no sent parent is left; one already marked for deletion stops the descent; any other is
+// marked for deletion.
+//@ closure (*wsConn).tryDelete#2
+//@   requires refs != nil
+//@   assumes has(refs, s.rid) && refs[s.rid] != nil
+//@   ensures[C02] old(refs[s.rid].state) >= gcStateKeep ==> result == gcStateStop && refs[s.rid].state == old(refs[s.rid].state)
+//@   ensures[C02] old(refs[s.rid].state) < gcStateKeep && (refs[s.rid].indirect > 0 || state == gcStateKeep) ==> result == gcStateKeep &&
+//@       refs[s.rid].state == ite(sent && refs[s.rid].indirectsent == 0, gcStateUnsend, gcStateKeep)
+//@   ensures[C02] old(refs[s.rid].state) < gcStateKeep && !(refs[s.rid].indirect > 0 || state == gcStateKeep) && old(refs[s.rid].state) != gcStateNone ==>
+//@       result == gcStateStop && refs[s.rid].state == old(refs[s.rid].state)
+//@   ensures[C02] old(refs[s.rid].state) == gcStateNone && !(refs[s.rid].indirect > 0 || state == gcStateKeep) ==> result == gcStateDelete && refs[s.rid].state == gcStateDelete
+//@   ensures[C02] forall r *subRef :: r != refs[s.rid] ==> r.state == old(r.state)
+//@   assigns subRef.state
+//@   safety[C15]
+
+// traverse: a directly subscribed resource is neither visited nor descended into; any other is
+// visited once, and its references are descended into with the state the visit returned unless
+// that is "stop".
+//@ func (*Subscription).traverse
+//@   requires s != nil
+//@   assumes predRefsOK()
+//@   callback cb requires arg0 != nil
+//@   ensures[C02] old(s.direct) > 0 ==> invoked() == old(invoked())
+//@   assert[C02] cb#1: arg0 == s && arg1 == state && s.direct <= 0
+//@   safety[C15]
+//@   loop 1 let M = s.refs
+//@   loop 1 assume forall a string :: has(M, a) ==> M[a] != nil && M[a].sub != nil
 
 //@ func (*wsConn).addCount
 //@   requires s != nil
